@@ -4,6 +4,8 @@
 import BorshModel.Lemmas.RoundtripMain
 import BorshModel.Lemmas.SpecRefineMain
 import BorshModel.Lemmas.SortLaws
+import BorshModel.Lemmas.Logical
+import BorshModel.Theorems.C02
 namespace Borsh
 
 /-- owned / borrowed / boxed / ref-counted / cell wrapping is invisible on the wire -/
@@ -103,5 +105,53 @@ example :
      (toVec (.set .hashSet (.int .u8)) (.list [.int 3, .int 1, .int 2])).okBytes [3, 0, 0, 0, 1, 2, 3] &&
      (toVec (.set .hashSet (.int .u8)) (.list [.int 2, .int 3, .int 1])).okBytes [3, 0, 0, 0, 1, 2, 3]) = true := by
   decide
+
+/-! ### the general statement -/
+
+/-- **Canonical encoding, whole universe**: two representations of the same logical value
+(`Eqv`: the members of every hash set and hash map in any iteration order, every deque in any
+ring-buffer split, anything in skipped fields — at any nesting depth, under any wrappers) are
+serialized to identical bytes, or refused for the same reason. -/
+theorem C03_canonical (t : Ty) (v w : Val) (hv : HasTy t v = true) (hw : HasTy t w = true)
+    (h : Eqv t v w) : (toVec t v).toSpec = (toVec t w).toSpec := by
+  rw [C02_refines_spec t v hv, C02_refines_spec t w hw]
+  exact eqv_enc t v w h
+
+/-- … stated on the bytes -/
+theorem C03_canonical_bytes (t : Ty) (v w : Val) (bs : Bytes) (hv : HasTy t v = true)
+    (hw : HasTy t w = true) (h : Eqv t v w) (he : toVec t v = .ok bs) : toVec t w = .ok bs := by
+  have := C03_canonical t v w hv hw h
+  rw [he] at this
+  cases hx : toVec t w with
+  | ok bs' => rw [hx] at this; simp only [Out.toSpec] at this; cases this; rfl
+  | err e =>
+    rw [hx] at this; simp only [Out.toSpec] at this
+    split at this <;> cases this
+  | panic p => rw [hx] at this; simp only [Out.toSpec] at this; cases this
+
+/-- the relation is inhabited exactly where the typing is: every well-typed representation is a
+representation of its own logical value (so "repeated serialization gives the same bytes" is the
+diagonal of `C03_canonical`, and the distinct-members side conditions are those of `HasTy`) -/
+theorem C03_eqv_refl (t : Ty) (v : Val) (hv : HasTy t v = true) : Eqv t v v := eqv_refl t v hv
+
+/-- non-vacuity: `HashMap<u8, (HashSet<u16>, VecDeque<u8>)>` — entries in two iteration orders, the
+inner sets in two orders, the deques in two rotations -/
+example :
+    let t := Ty.map .hashMap (.int .u8) (Ty.tuple [.set .hashSet (.int .u16), .seq .vecDeque (.int .u8)])
+    let v := Val.list [.list [.int 7, .list [.list [.int 300, .int 2], .deque [.int 1] [.int 2, .int 3]]],
+                       .list [.int 1, .list [.list [.int 5], .deque [] []]]]
+    let w := Val.list [.list [.int 1, .list [.list [.int 5], .deque [] []]],
+                       .list [.int 7, .list [.list [.int 2, .int 300], .deque [.int 1, .int 2] [.int 3]]]]
+    Eqv t v w ∧ HasTy t v = true ∧ HasTy t w = true ∧
+      (toVec t v).okBytes [2, 0, 0, 0, 1, 1, 0, 0, 0, 5, 0, 0, 0, 0, 0, 7, 2, 0, 0, 0, 2, 0, 44, 1, 3, 0, 0, 0, 1, 2, 3] = true := by
+  refine ⟨?_, by decide, by decide, by decide⟩
+  refine ⟨[.list [.int 7, .list [.list [.int 2, .int 300], .deque [.int 1, .int 2] [.int 3]]],
+           .list [.int 1, .list [.list [.int 5], .deque [] []]]], ?_, by decide, by decide, ?_⟩
+  · simp only [All₂, entryRel, Ty.tuple, List.map, Eqv, EqvFields, SameMembers, List.cons_append,
+      List.nil_append, and_true, true_and]
+    refine ⟨⟨Or.inr ⟨by decide, by decide, ?_⟩, Or.inr trivial⟩, ⟨Or.inr ⟨by decide, by decide, ?_⟩, Or.inr trivial⟩⟩
+    · intro x; simp [or_comm]
+    · intro x; simp
+  · intro x; simp [or_comm]
 
 end Borsh
